@@ -55,6 +55,35 @@ impl PoolDriver {
         }
     }
 
+    /// Feeds only the bundle's certificates (validated as a receiver would) into a fresh pool.
+    fn catch_up(&mut self, highest: u64, certs: &[alpenglow::consensus::Cert]) -> Value {
+        let (vtx, _vrx) = mpsc::channel(4096);
+        let (rtx, _rrx) = mpsc::channel(4096);
+        // a different validator's pool (the receiver of the re-broadcast)
+        let other = (self.own + 1) % self.world.n;
+        let mut fresh = PoolImpl::new(self.world.validator_epoch(other), vtx, rtx);
+        let mut panic = String::new();
+        for c in certs {
+            let Some(vc) = self.world.validate_cert(c) else {
+                continue;
+            };
+            let r = self
+                .rt
+                .block_on(AssertUnwindSafe(fresh.add_cert(vc)).catch_unwind());
+            if let Err(e) = r {
+                panic = panic_msg(e);
+                break;
+            }
+        }
+        let next_window = (highest / 4) * 4 + 4;
+        let ready: Vec<Value> = fresh
+            .parents_ready(Slot::new(next_window))
+            .iter()
+            .map(|b| self.world.block_json(b))
+            .collect();
+        json!({"hi": fresh.finalized_slot().inner(), "ready": ready, "panic": panic})
+    }
+
     fn event_json(&mut self, ev: PoolEvent) -> Value {
         match ev {
             PoolEvent::ParentReady { slot, parent } => {
@@ -85,7 +114,8 @@ impl PoolDriver {
                         j
                     })
                     .collect();
-                json!({"t": "Standstill", "s": s.inner(), "certs": cs, "votes": vs})
+                let fresh = self.catch_up(s.inner().saturating_sub(1), &certs);
+                json!({"t": "Standstill", "s": s.inner(), "certs": cs, "votes": vs, "fresh": fresh})
             }
         }
     }
@@ -453,6 +483,15 @@ impl PoolDriver {
                 }
                 if canon(&e["votes"]) != canon(&strip(&g["votes"])) {
                     return Err("votes".into());
+                }
+                if e.get("fresh").is_some() {
+                    let ef = &e["fresh"];
+                    let gf = &g["fresh"];
+                    if ef["hi"] != gf["hi"] || canon(&ef["ready"]) != canon(&gf["ready"])
+                        || ef["panic"].as_str().unwrap_or("").is_empty() != gf["panic"].as_str().unwrap_or("").is_empty()
+                    {
+                        return Err("fresh".into());
+                    }
                 }
                 let all_valid = g["certs"].as_array().unwrap().iter().all(|c| c["valid"] == json!(true))
                     && g["votes"].as_array().unwrap().iter().all(|c| c["valid"] == json!(true));
